@@ -12,7 +12,7 @@ from hypothesis import strategies as st
 
 from .. import dimsegen as dg
 from .. import refcmd, refpdu
-from ..common import Violation, HarnessError, hyp_search, parallel, lib_frame
+from ..common import Violation, HarnessError, hyp_search, parallel, lib_frame, quiet_warnings
 from .c06 import default_fields, PCIDS, norm
 
 LEVEL = 'exploration'
@@ -279,7 +279,7 @@ def nontrivial(nfrag, groups):
 
 def run_exhaustive(ctx, job):
     """All compositions of short fragment lists."""
-    warnings.simplefilter('ignore')
+    quiet_warnings()
     for idx in job['indices']:
         cf = 0x0001 if idx % 4 == 1 else dg.ALL_CF[idx % len(dg.ALL_CF)]
         has_data = idx % 3 != 0 or idx % 4 == 1
@@ -495,7 +495,7 @@ def run_long_association(ctx, total_bytes, msg_bytes=4 << 20, replaying=False):
 
 
 def shard_long(ctx, job):
-    warnings.simplefilter('ignore')
+    quiet_warnings()
     run_long_association(ctx, job['total'])
 
 
@@ -530,12 +530,12 @@ def run_random(ctx, n):
 
 
 def shard_random(ctx, job):
-    warnings.simplefilter('ignore')
+    quiet_warnings()
     run_random(ctx, job['n'])
 
 
 def run(ctx):
-    warnings.simplefilter('ignore')
+    quiet_warnings()
     try:
         refcmd.self_test()
         refpdu.self_test()
@@ -574,7 +574,7 @@ def run(ctx):
 
 
 def replay(case):
-    warnings.simplefilter('ignore')
+    quiet_warnings()
     if case.get('long_association'):
         from ..common import Ctx
         run_long_association(Ctx('C07', 'quick', 1), case['total_bytes'], case['msg_bytes'], replaying=True)
